@@ -17,7 +17,7 @@
 #define SDO_DS2 30          /* domain larger than the (scaled) buffer */
 #endif
 #ifndef SDO_NODEID
-#define SDO_NODEID 1
+#define SDO_NODEID 5
 #endif
 #define SDO_MAXDATA (SDO_DS2 + 16)
 
@@ -636,10 +636,12 @@ image:
 /* The application rewrites its objects with their initial values whenever every server is idle (an environment
  * action that is part of each BFS step).  Every write has been compared with the reference before this happens;
  * it keeps the product "protocol state x dictionary content" from exploding. */
+static int sdo_content_force;      /* the C05 probes rewrite the objects even while another server has a transfer open */
 static void sdo_content_reset(void)
 {
-    for (int n = 0; n < CO_SSDO_N; n++) if (SM[n].st != S_IDLE || sdo_dirty_obj[n] >= 0) return;
+    if (!sdo_content_force) for (int n = 0; n < CO_SSDO_N; n++) if (SM[n].st != S_IDLE || sdo_dirty_obj[n] >= 0) return;
     for (int i = 0; i < O_N; i++) {
+        if (sdo_content_force) impl_value(i, MV[i]);          /* what an unfinished download on another server has already stored */
         const ODesc *o = &OBJ[i];
         if (!memcmp(MV[i], MV0[i], o->size)) continue;
         if (o->direct) {
